@@ -56,4 +56,11 @@ CONFIG = {
         "quick": {"parts": [part("TestC07", 16, 40)]},
         "thorough": {"parts": [part("TestC07", 32, 600, timeout=3000)]},
     },
+    "C08": {
+        "level": "exploration",
+        "rule": "rapid-generated single-table dataset + storage split x a base query (field subsets, derived fields, GROUP BY */dims/_, period multiples) x one clause under test: (where) a dimension predicate over the table's stored dims [=,<>,<,<=,>,>=,LIKE,NOT LIKE,IN,IS [NOT] NULL,AND/OR/NOT] - oracle: the WHERE-free query on a SECOND database that received only the points whose stored key satisfies the predicate under the harness's own evaluator; (having) a condition over selected and unselected fields - oracle: rows of the HAVING-free query (with the needed fields added) filtered by the harness's evaluator, helper column absent; (insub) dim IN (SELECT dim ... [WHERE][HAVING]) - oracle: IN over the literal list of distinct values obtained by running the subquery alone; (fromsub) outer fields/aggregates over FROM (native-resolution subquery) with outer GROUP BY/period - oracle: reference aggregation of the materialised inner rows. Non-trivial: >= 3 points. Distinct = case hash.",
+        "assumptions": ["predicates are type-consistent (string dims vs string literals, int vs int); IN lists without zero/empty literals", "HAVING conditions come from the sub-grammar 'expression cmp constant, false for an all-zero row' (two listed findings excluded by construction and probed)", "_points is always selected"],
+        "quick": {"parts": [part("TestC08", 16, 40)]},
+        "thorough": {"parts": [part("TestC08", 32, 500, timeout=3000)]},
+    },
 }
